@@ -183,7 +183,7 @@ def body(ctx):
 
     # ================================================================ lhs
     sizes = [1, 2, 3, 4, 5, 7, 10, 33, 100] + ([250, 500] if ctx.thorough else [200])
-    for it in range(ctx.scale(260, 2600)):
+    for it in range(ctx.scale(400, 2600)):
         n = sizes[it] if it < len(sizes) else rng.choice(sizes + [rng.randint(1, sizes[-1])])
         nparams = rng.randint(1, 6)
         pmin, pmax = [], []
@@ -281,7 +281,7 @@ def body(ctx):
     csts = [0.0, 0.5, 0.3, 0.375, 0.3175, 0.4, 0.25, 1e-300, 0.5 - 2.0 ** -54]
     nmax = ctx.scale(60, 400)
     pp_cases = [(n, c) for n in list(range(0, 13)) + [nmax] for c in csts]
-    for _ in range(ctx.scale(250, 2500)):
+    for _ in range(ctx.scale(400, 2500)):
         pp_cases.append((rng.randint(1, nmax), rng.uniform(0, 0.5)))
     for c in (-1e-9, 0.5 + 1e-9, -0.0, 0.5000000000000001, -1.0, 2.0, float("nan")):
         pp_cases.append((rng.randint(1, 9), c))
@@ -313,7 +313,7 @@ def body(ctx):
             ctx.finding("ppos/not_symmetric", "plotting positions are not symmetric about 0.5", {**case, "pp": pp[:8]})
 
     # ================================================================ standard_normal
-    for it in range(ctx.scale(300, 3000)):
+    for it in range(ctx.scale(450, 3000)):
         n = [1, 2, 3][it] if it < 3 else rng.choice([2, 3, 5, 8, 20, 60, ctx.scale(150, 400)])
         x, kind = gen_column(rng, n, rng.choice(["normal", "ties", "fewties", "const", "lognormal", "big"]))
         if rng.random() < 0.05 and n >= 2:
@@ -360,7 +360,7 @@ def body(ctx):
 
     # ================================================================ pareto_front
     shapes = [(nv, nc) for nv in (0, 1, 2, 3) for nc in (1, 2, 5)]
-    for it in range(ctx.scale(500, 5000)):
+    for it in range(ctx.scale(800, 5000)):
         nv, nc = shapes[it] if it < len(shapes) else (rng.randint(0, 60), rng.randint(1, 5))
         kind = rng.choice(["grid", "grid", "grid2", "gauss", "dups", "chain"])
         if kind == "grid":
@@ -465,7 +465,7 @@ def body(ctx):
         return (cnt, row)
 
     box_sizes = [0, 1, 2, 3, 4, 5, 6]
-    for it in range(ctx.scale(350, 3500)):
+    for it in range(ctx.scale(550, 3500)):
         n = box_sizes[it] if it < len(box_sizes) else rng.choice([4, 5, 7, 10, 25, 80, rng.randint(0, ctx.scale(300, 700))])
         x, kind = gen_column(rng, n)
         x, hmode = poke_holes(rng, x)
@@ -511,7 +511,7 @@ def body(ctx):
         ctx.count(("boxcheck", b, w), False, "Boxplot/coverage_guard/" + impl)
 
     # ---- Boxplot(df).stats : one column of statistics per data column
-    for it in range(ctx.scale(60, 600)):
+    for it in range(ctx.scale(90, 600)):
         n = rng.choice([0, 1, 3, 4, 5, 12, 40, rng.randint(0, ctx.scale(200, 500))])
         ncol = rng.randint(1, 4)
         colsd = {}
@@ -576,7 +576,7 @@ def body(ctx):
                 box_oracle(tag, [v for v, c in zip(x, cats) if c == g], b, w, cnt, row, {**case, "group": g})
         return impl, case
 
-    for it in range(ctx.scale(120, 1200)):
+    for it in range(ctx.scale(180, 1200)):
         n = rng.choice([2, 5, 9, 20, 60, rng.randint(2, ctx.scale(300, 600))])
         ncat = rng.randint(2, 5)
         weights = [rng.choice([1, 1, 3, 10]) for _ in range(ncat)]
@@ -615,7 +615,7 @@ def body(ctx):
 
     # ================================================================ violin
     vreqs2 = []
-    for it in range(ctx.scale(110, 1100)):
+    for it in range(ctx.scale(160, 1100)):
         n = [0, 1, 2, 3, 4][it] if it < 5 else rng.choice([3, 4, 6, 15, 40, 101, rng.randint(0, ctx.scale(250, 500))])
         ncol = rng.randint(1, 3)
         colsd = {}
